@@ -1,11 +1,11 @@
 package lint
 
 import (
-	"sort"
 	"fmt"
 	"go/constant"
 	"go/token"
 	"go/types"
+	"sort"
 	"strings"
 
 	"golang.org/x/tools/go/ssa"
@@ -901,7 +901,6 @@ func (p *Program) impliedFacts(v ssa.Value, truth bool, depth int) []string {
 
 	return out
 }
-
 
 func isNilConst(v ssa.Value) bool {
 	c, ok := v.(*ssa.Const)
